@@ -61,7 +61,10 @@ def run(chk, tier, seed):
             for cmd in (["cat"], ["sector-map"], ["show-titles"]):
                 sessions.append(("dfs", ["--file", p] + cmd, None, "hostile-" + c["kind"]))
         tabs = bc.tables()
-        progs = list(bc.gen_listo(tabs, True))[:60] + list(bc.gen_strings(True))[:20] + list(bc.gen_hostile(rnd, True))[:150]
+        sweep = list(bc.gen_tokens_sweep(tabs, True))
+        progs = (list(bc.gen_listo(tabs, True))[:60] + list(bc.gen_strings(True))[:20] + list(bc.gen_hostile(rnd, True))[:150] +
+                 [x for x in sweep if x[1] == "PDP11" or x[0] in ("tok-all",) or x[0].startswith("ext-")][:400] + sweep[::7] +
+                 list(bc.gen_linenums(True))[:6])
         for i, (label, d, listo, data) in enumerate(progs):
             p = os.path.join(scratch, "b%d.bbc" % i)
             open(p, "wb").write(data)
